@@ -261,7 +261,7 @@ pub fn judge_exchange(e: &Exchange, p: &Probe) -> Judge {
         1 => Framing::Chunked(e.chunks.clone()),
         _ => Framing::CloseDelimited,
     };
-    let script = Script { status: 200, framing: framing.clone(), body: body.clone(), frags: e.frags.clone(), cut_after: None, rst: false, stall: Duration::ZERO, extra_headers: vec![] };
+    let script = Script { status: 200, framing: framing.clone(), body: body.clone(), frags: e.frags.clone(), cut_after: None, rst: false, stall: Duration::ZERO, extra_headers: vec![], gap: Duration::ZERO };
     let s2 = script.clone();
     let server = Server::start(Arc::new(move |_r| s2.clone()), None).map_err(|e| Fail::new("infra/server", format!("{e}")))?;
     let (uri, target, hostport) = target_uri(e, server.port);
@@ -461,6 +461,30 @@ fn run_failure_scripts(ctx: &Ctx) {
             });
         }
     });
+    // exceeded timeout, trickling server: it never pauses for as long as the timeout between two
+    // writes, but the complete header+attributes take more than 4x the timeout in total
+    for is_async in [false, true] {
+        ctx.eval();
+        ctx.nontrivial(hash64(&("trickle", is_async)));
+        ctx.label("failure script: trickling server");
+        let mut script = Script::ok(body.clone());
+        // the whole response (about 160 bytes) in 11-byte pieces 150 ms apart: > 1.9 s > 4 x 400 ms
+        script.frags = vec![11; 64];
+        script.gap = Duration::from_millis(150);
+        script.framing = Framing::CloseDelimited;
+        match one_shot(script, is_async, Some(Duration::from_millis(400))) {
+            Err(f) => ctx.inconclusive(&f.msg),
+            Ok((SendOutcome::Ok { .. }, _, el)) => {
+                if el >= Duration::from_millis(1600) {
+                    let f = Fail::new("C11/timeout-ignored-trickle", format!("{} client: request_timeout 400 ms, the server delivered the response in pieces over {:?} (never pausing 400 ms); send() returned success although the request took more than 4x the timeout", if is_async { "async" } else { "blocking" }, el));
+                    ctx.failure("timeout", &f, json!({"timeout_ms": 400, "trickle": true, "async_client": is_async}));
+                } else {
+                    ctx.inconclusive(&format!("trickle sub-check: the response arrived after only {el:?}"));
+                }
+            }
+            Ok(_) => {}
+        }
+    }
     // exceeded timeout: the stalled server DOES answer correctly after 4x the timeout
     for is_async in [false, true] {
         for _rep in 0..ctx.tier.pick(1, 3) {
@@ -678,6 +702,16 @@ pub fn replay(ctx: &Ctx, sub: &str, case: &Value) -> Judge {
         return match one_shot(script, is_async, Some(Duration::from_secs(20)))?.0 {
             SendOutcome::Ok { .. } => Err(Fail::new("C11/cut-accepted", format!("cut after {k} body bytes returned as success"))),
             SendOutcome::Panic(p) => Err(Fail::new(format!("C11/{}", panic_sig(&p)), p)),
+            _ => Ok(()),
+        };
+    }
+    if case.get("trickle").is_some() {
+        let mut script = Script::ok(body);
+        script.frags = vec![11; 64];
+        script.gap = Duration::from_millis(150);
+        script.framing = Framing::CloseDelimited;
+        return match one_shot(script, is_async, Some(Duration::from_millis(400)))? {
+            (SendOutcome::Ok { .. }, _, el) if el >= Duration::from_millis(1600) => Err(Fail::new("C11/timeout-ignored-trickle", format!("success returned after {el:?} with a 400 ms request timeout"))),
             _ => Ok(()),
         };
     }
